@@ -57,9 +57,13 @@ def post(prop, tier, seed, tmp, bins, results, notes, log, ENV, VERIF, REPLAYS=N
         for cfg, f in files.items():
             if cfg == "asm" or not base or not os.path.exists(base) or not os.path.exists(f):
                 continue
-            a, b = open(base).read().split("\n"), open(f).read().split("\n")
-            n = sum(1 for x in a if x)
-            diff = next((i for i in range(max(len(a), len(b))) if (a[i] if i < len(a) else None) != (b[i] if i < len(b) else None)), None)
+            a, b = [x for x in open(base).read().split("\n") if x], [x for x in open(f).read().split("\n") if x]
+            # the configurations may run different volumes (race and 386 run a fraction): call #i is
+            # the same call in every build, so the common prefix is what can be compared
+            n = min(len(a), len(b))
+            diff = next((i for i in range(n) if a[i] != b[i]), None)
+            if n == 0:
+                diff = 0
             for r in results:
                 if r["config"] == cfg and r["partial"]:
                     r["partial"].setdefault("extras", {})["transcript_lines_compared_with_asm"] = n
